@@ -598,7 +598,7 @@ def check_C17(c):
     cases = c.tlc("MC_views", "cov-native", k, ["TypeOK", "Emit"])
     rp("cov-native", cases, dtypes="all", pals="ident")
     k = elem_consts(True, ["Unary", "Arith", "Cmp"], laya=("C", "Col"), layb=("C", "Col"), modes=("safe", "unsafe", "reuse", "incr"), layd=("C",),
-                    mismatch=False, MinRank=1, MaxRank=1, MaxDim=3)
+                    mismatch=False, MinRank=1, MaxRank=2, MaxDim=3 if not q else 2, MaxDimHi=2, HiRank=3)
     cases = c.tlc("MC_elem", "cov-elem", k, ["TypeOK", "Emit"])
     rp("cov-elem", cases, dtypes="all", pals="ident,signed", extra=["-ops", "all", "-entries", "func,method"])
     k = dict(MinRank=1, MaxRank=2, MaxDim=3, MaxDimHi=2, HiRank=3, LayA={S("C"), S("Col")}, Kinds={S("Reduce"), S("Arg")})
